@@ -294,14 +294,47 @@ def run_lines(binary_args, lines, shards=None, timeout=900, single_timeout=20):
     import threading
     results = [None] * len(procs)
 
-    def work(i, p, chunk):
+    def batch(p, chunk, tmo):
+        """-> complete output lines of one process fed with chunk (fewer than len(chunk) if it crashed or ran out of time)"""
         data = ("\n".join(chunk) + "\n").encode("utf-8")
         try:
-            out, _ = p.communicate(data, timeout=timeout)
+            out, _ = p.communicate(data, timeout=tmo)
         except subprocess.TimeoutExpired:
             p.kill()
-            out = b""
-        results[i] = out.decode("utf-8", "replace").split("\n")
+            try:
+                out, _ = p.communicate(timeout=10)
+            except Exception:
+                out = b""
+        text = out.decode("utf-8", "replace")
+        lines = text.split("\n")
+        if not text.endswith("\n"):
+            lines = lines[:-1]            # a line cut short by the crash
+        return [r for r in lines if r != ""]
+
+    def single(c):
+        try:
+            pp = subprocess.run(binary_args, input=(c + "\n").encode("utf-8"), capture_output=True,
+                                timeout=single_timeout, env=ENV, preexec_fn=_limit_child)
+            rc, o = pp.returncode, pp.stdout.decode("utf-8", "replace").strip()
+        except subprocess.TimeoutExpired:
+            rc, o = 124, ""
+        return o if o and rc == 0 and "\n" not in o else json.dumps({"crash": rc})
+
+    def work(i, p, chunk):
+        res = batch(p, chunk, timeout)
+        pending = chunk[len(res):]
+        while pending:
+            # the process itself crashed (abort / stack overflow) or ran out of time at the first line without output: run that
+            # line alone, then go on with the rest as a new batch (every line is still answered by the same binary)
+            res.append(single(pending[0]))
+            pending = pending[1:]
+            if pending:
+                p2 = subprocess.Popen(binary_args, stdin=subprocess.PIPE, stdout=subprocess.PIPE,
+                                      stderr=subprocess.DEVNULL, env=ENV, preexec_fn=_limit_child)
+                got = batch(p2, pending, max(single_timeout, min(timeout, 30 + len(pending))))
+                res.extend(got)
+                pending = pending[len(got):]
+        results[i] = res
 
     ths = [threading.Thread(target=work, args=(i, p, c)) for i, (p, c) in enumerate(procs)]
     for t in ths:
@@ -309,19 +342,7 @@ def run_lines(binary_args, lines, shards=None, timeout=900, single_timeout=20):
     for t in ths:
         t.join()
     out = []
-    for (p, chunk), res in zip(procs, results):
-        res = [r for r in res if r != ""]
-        if len(res) != len(chunk):
-            # a crash of the process itself (abort / stack overflow): re-run one by one
-            res = []
-            for c in chunk:
-                try:
-                    pp = subprocess.run(binary_args, input=(c + "\n").encode("utf-8"), capture_output=True,
-                                        timeout=single_timeout, env=ENV, preexec_fn=_limit_child)
-                    rc, o = pp.returncode, pp.stdout.decode("utf-8", "replace").strip()
-                except subprocess.TimeoutExpired:
-                    rc, o = 124, ""
-                res.append(o if o and rc == 0 else json.dumps({"crash": rc}))
+    for res in results:
         out.extend(res)
     return out
 
